@@ -48,6 +48,9 @@ func stratum(c *PlanCase, withSize bool) string {
 	if c.Obj == "h" || c.Obj == "sub" {
 		s += fmt.Sprintf("/L%d", c.L)
 	}
+	if c.Op == "iter" && (c.Obj == "sub" || c.Obj == "d") {
+		s += fmt.Sprintf("/all=%v", c.All) // Entries and AllEntries are separate entry points
+	}
 	if withSize {
 		s += fmt.Sprintf("/N%d", c.Size)
 	}
@@ -61,7 +64,8 @@ func sample(plan []*PlanCase, tier string, seed int64) []*PlanCase {
 	groups := map[string][]*PlanCase{}
 	var keys []string
 	for _, c := range plan {
-		k := stratum(c, tier == "thorough")
+		// the coherent substitutions are few: every size in both tiers
+		k := stratum(c, tier == "thorough" || c.Obj == "sub")
 		if _, ok := groups[k]; !ok {
 			keys = append(keys, k)
 		}
@@ -79,6 +83,12 @@ func sample(plan []*PlanCase, tier string, seed int64) []*PlanCase {
 			want = 3
 		case tier != "thorough" && interesting && r.Intn(2) == 0:
 			want = 2
+		}
+		if g[0].Obj == "sub" && g[0].Expect == "fail" {
+			want = 4 // a data tile forked together with its hash tiles: the only tampering that is consistent in itself
+			if tier == "thorough" {
+				want = 8
+			}
 		}
 		if g[0].Obj == "none" || g[0].Obj == "cp" || g[0].Obj == "sct" {
 			want = len(g) // the untampered calls and the few checkpoint and SCT cases: all
@@ -125,6 +135,10 @@ func (w *worker) exec(ctx context.Context, c *PlanCase, tr Transport, rl *Realis
 		err = fmt.Errorf("%w: unknown call %q", errHarness, c.Op)
 	}
 	rec.Hits = done()
+	if rl.WarmFailed != "" {
+		rec.Warm = true
+		rec.ErrMsg = rl.WarmFailed + "; " + rec.ErrMsg
+	}
 	return rec, err
 }
 
